@@ -97,6 +97,27 @@ def evaluate(case):
         fails.append("stored S(Q) differs from stored Q[S(Q)-1]/Q + 1")
     if exceeds(np.abs(F - q * (S - 1.0)).max(), 1e-11 * sc_):
         fails.append("stored curves do not satisfy Q[S(Q)-1] = Q*(S(Q)-1)")
+    # "after merging": every merge, not only the first one on an object — merge again with the same options, then with the options
+    # re-tuned through the setter (tuning the scale and re-merging is the normal way of working), always against the same formula
+    if not fails:
+        for rep in (1, 2):
+            try:
+                s.merge_data()
+            except Exception as ex:  # noqa: BLE001
+                fails.append(f"merge #{rep + 1} on the same object raises {type(ex).__name__}")
+                break
+            F2 = np.asarray(s.sq_master[s.qsq_minus_one_title], dtype=float)
+            S2 = np.asarray(s.sq_master[s.sq_title], dtype=float)
+            if F2.shape != expF.shape or exceeds(np.abs(F2 - expF).max(), 1e-11 * sc_) or exceeds(np.abs(S2 - (expF / q + 1.0)).max(), 1e-11 * max(1.0, float(np.abs(S).max()))):
+                fails.append(f"merge #{rep + 1} on the same object (same data, same options {o!r}): stored curves no longer follow "
+                             "cF*Q*(aS*mean+bS-1)+dF")
+                break
+        if not fails:
+            s.merged_opts = {}
+            s.merge_data()
+            F3 = np.asarray(s.sq_master[s.qsq_minus_one_title], dtype=float)
+            if F3.shape != mean.shape or exceeds(np.abs(F3 - q * (mean - 1.0)).max(), 1e-11 * max(1.0, float(np.abs(q * (mean - 1.0)).max()))):
+                fails.append("after resetting the post-merge options to {} a new merge does not give Q*(mean-1): an earlier merge left its scale/offset behind")
     return fails
 
 
